@@ -242,7 +242,30 @@ func (t *Task) Delete(pg wpg.Conn, n uint64) error {
 	if err != nil {
 		return fmt.Errorf("deleting block from task table: %w", err)
 	}
-	err = t.dests[0].Delete(t.ctx, pg, n)
+	// A position is recorded per step, not per block. The rows of
+	// every block above the position that remains have to go,
+	// not only those of block n.
+	const pq = `
+		select num
+		from shovel.task_updates
+		where src_name = $1
+		and ig_name = $2
+		order by num desc
+		limit 1
+	`
+	from, prev := n, uint64(0)
+	err = pg.QueryRow(t.ctx, pq, t.srcName, t.destConfig.Name).Scan(&prev)
+	switch {
+	case errors.Is(err, pgx.ErrNoRows):
+		if t.start > 0 {
+			from = min(from, t.start)
+		}
+	case err != nil:
+		return fmt.Errorf("querying for remaining position: %w", err)
+	default:
+		from = min(from, prev+1)
+	}
+	err = t.dests[0].Delete(t.ctx, pg, from)
 	if err != nil {
 		return fmt.Errorf("deleting block: %w", err)
 	}
